@@ -190,7 +190,8 @@ def rel_searcher(I, st, s, n, out):
             rel_twoway(I, st, val.fields[0], n, True, out)
             rel_prefilter(I, st, val.fields[1], n, out)
         else:
-            out.append(Fact((), ('le', n - 32), f'I-MM: {fname} (memcmp-confirming vector) searcher => needle.len() <= 32'))
+            # (the cap itself is a tuning constant -- 32 today; what the linear-work argument needs is that SOME constant caps it)
+            out.append(Fact((), ('bounded', n, 1 << 12), f'I-MM: {fname} (memcmp-confirming vector) searcher => needle.len() is capped by a constant'))
             rel_packed(I, st, val, n, out)
 
 
@@ -516,6 +517,8 @@ def expand_args(I, st, args):
 # ------------------------------------------------------------------ assume / check
 def add_atom(st, atom):
     k = atom[0]
+    if k == 'bounded':
+        return              # check-only: nothing downstream relies on the particular constant
     if k == 'le':
         st.store.add_le(atom[1])
     elif k == 'eq':
@@ -526,6 +529,9 @@ def add_atom(st, atom):
 
 def entails(st, atom):
     k = atom[0]
+    if k == 'bounded':
+        lb = st.store.lower_bound(-atom[1], -atom[2], 0)
+        return lb is not None
     if k == 'le':
         return st.store.entails_le(atom[1])
     if k == 'eq':
@@ -659,6 +665,7 @@ def check_call_pre(I, fr, st, callee, args, loc):
             row[1](I, st, args, facts)
         except (Shape, AttributeError) as e:
             errs.append(str(e))
+    facts = [f for f in facts if f.atom[0] != 'bounded']
     name = callee.path.split('::<')[0].rsplit('::', 2)
     name = '::'.join(name[-2:])
     for e in errs:
@@ -791,6 +798,9 @@ def _assume_post1(I, fr, st, callee, args, ret):
     return outs
 
 
+CAP_ROOT = re.compile(r'^memmem::FinderBuilder::build_forward_with_ranker')
+
+
 def check_root_post(I, inst, results, args):
     """REL-POST: what a root returns (and leaves behind its &mut arguments) satisfies REL"""
     fr = _Fr(inst)
@@ -800,9 +810,16 @@ def check_root_post(I, inst, results, args):
             continue
         facts, errs = [], []
         auto_rel(I, st, ret, facts, errs)
+        fa = []
         for a in args:
             if isinstance(a, RefV):
-                auto_rel(I, st, a, facts, errs)
+                auto_rel(I, st, a, fa, errs)
+        # (check-only facts -- "capped by SOME constant" -- are established by constructors, not re-derivable for an argument)
+        facts += [f for f in fa if f.atom[0] != 'bounded']
+        if not CAP_ROOT.match(inst.path):
+            # "the vector searcher's needle length is capped by a constant" is decided where the searcher is actually
+            # chosen (Searcher::new, inlined into build_forward_with_ranker); everything else only passes finders on
+            facts = [f for f in facts if f.atom[0] != 'bounded']
         if row:
             try:
                 row[1](I, st, args, ret, facts)
